@@ -241,9 +241,19 @@ func runHistory(d *lib.Driver, h []hcall, funcs bool) error {
 }
 
 // pooled: the package-level functions recycle instances through a sync.Pool. Which instance a call
-// gets is not observable; from one goroutine it is usually the one the previous calls used. A deviation
-// from a fresh parser is the known finding iff the Lean machine, run over the last n calls of the
-// sequence as one instance (for some n), enters this call with plus set and reproduces its outcome.
+// gets is not observable (the pool keeps several, per scheduler thread). The harness therefore keeps the
+// SET of (plus, lastStrKey, lastKey) states that pooled instances can be in according to the Lean
+// machine: it starts with the fresh state; after every call, every state of the set from which the
+// machine reproduces the observed outcome contributes the state the machine says the call leaves. A
+// deviation from a fresh parser is the known finding iff the machine reproduces it from a state of the
+// set that has plus set; if no state of the set explains the outcome it is a violation.
+type pstate struct {
+	plus    bool
+	lsk, lk string
+}
+
+func (p pstate) key() string { return fmt.Sprint(p.plus, "|", p.lsk, "|", p.lk) }
+
 func pooledPhase(g *senGen, n int) {
 	hg := &histGen{g}
 	d, err := lib.StartDriver(*driver)
@@ -252,11 +262,7 @@ func pooledPhase(g *senGen, n int) {
 		os.Exit(3)
 	}
 	defer d.Close()
-	type done struct {
-		c     hcall
-		reads []int
-	}
-	var hist []done
+	states := []pstate{{false, "-", "-"}}
 	var descr []string
 	for i := 0; i < n; i++ {
 		c := hg.call()
@@ -283,61 +289,65 @@ func pooledPhase(g *senGen, n int) {
 			descr = descr[len(descr)-6:]
 		}
 		rep.Count("pooled_calls", 1)
-		if !sameOutcome(got, f.o) {
-			ex := map[string]any{"last_calls": append([]string{}, descr...), "pooled": got.String(), "fresh_instance": f.o.String()}
-			explained := false
-			sp := c.spec(false)
-			for back := 1; back <= len(hist) && !explained; back++ {
-				plus, lsk, lk := false, "-", "-"
-				ok := true
-				for _, h := range hist[len(hist)-back:] {
-					carried := ""
-					if plus {
-						carried = "+"
-					}
-					a, err := d.Ask1(h.c.spec(false).modelKey(h.reads, carried) + "\t" + lib.HexF(h.c.in) + "\t" + lsk + "\t" + lk)
-					if err != nil {
-						fmt.Fprintln(os.Stderr, err)
-						os.Exit(3)
-					}
-					m := parseModel(a)
-					plus, lsk, lk = m.plus, m.lsk, m.lk
-					if m.fault {
-						// a panic in the '+' branch of addString happens before the flag is cleared (the state
-						// is the one before the failing byte, which is what the model reports); the
-						// empty-stack delivery panics after addString has cleared it
-						if !strings.Contains(m.kind, "not_a_string") {
-							if strings.Contains(m.kind, "index_out_of_range_[0]") {
-								plus = false
-							} else {
-								ok = false
-								break
-							}
-						}
-					}
-				}
-				if !ok || !plus {
-					continue
-				}
-				a, err := d.Ask1(sp.modelKey(reads, "+") + "\t" + lib.HexF(c.in) + "\t" + lsk + "\t" + lk)
-				if err != nil {
-					fmt.Fprintln(os.Stderr, err)
-					os.Exit(3)
-				}
-				if m := parseModel(a); tie(m, got, sp) == "" {
-					ex["explained_by_last_calls"] = back
-					ex["model"] = m.raw
-					addKnown("C07sen-plus-not-reset", "history:pooled:C07sen-plus-not-reset", "sen.Parse on a pooled instance that an earlier failed call left with '+' pending: "+got.String()+" instead of "+f.o.String(), c.in, ex)
-					explained = true
-				}
+		sp := c.spec(false)
+		hx := lib.HexF(c.in)
+		reqs := make([]string, len(states))
+		for k, st := range states {
+			carried := ""
+			if st.plus {
+				carried = "+"
 			}
-			if !explained {
-				add("violation", "history:pooled", "sen.Parse/ParseReader through the pool differs from a fresh parser: "+got.String()+" instead of "+f.o.String(), c.in, ex)
+			reqs[k] = sp.modelKey(reads, carried) + "\t" + hx + "\t" + st.lsk + "\t" + st.lk
+		}
+		ans, err := d.Ask(reqs)
+		if err != nil {
+			fmt.Fprintln(os.Stderr, err)
+			os.Exit(3)
+		}
+		explainedByPlus, explained := false, false
+		seen := map[string]bool{}
+		var next []pstate
+		addState := func(p pstate) {
+			if !seen[p.key()] {
+				seen[p.key()] = true
+				next = append(next, p)
 			}
 		}
-		hist = append(hist, done{c, reads})
-		if len(hist) > 24 {
-			hist = hist[1:]
+		var how string
+		for k, st := range states {
+			m := parseModel(ans[k])
+			if tie(m, got, sp) != "" {
+				addState(st) // another instance may still be in this state
+				continue
+			}
+			explained = true
+			if st.plus && !explainedByPlus {
+				explainedByPlus = true
+				how = m.raw
+			}
+			after := pstate{m.plus, m.lsk, m.lk}
+			if m.fault && strings.Contains(m.kind, "index_out_of_range_[0]") {
+				after.plus = false // addString cleared the flag before the empty stack was delivered
+			}
+			addState(after)
+			addState(st)
+		}
+		if len(next) > 64 {
+			next = next[:64]
+		}
+		states = next
+		if sameOutcome(got, f.o) && explained {
+			continue
+		}
+		ex := map[string]any{"last_calls": append([]string{}, descr...), "pooled": got.String(), "fresh_instance": f.o.String(), "states_tracked": len(states)}
+		switch {
+		case !sameOutcome(got, f.o) && explainedByPlus:
+			ex["model_from_a_plus_state"] = how
+			addKnown("C07sen-plus-not-reset", "history:pooled:C07sen-plus-not-reset", "sen.Parse on a pooled instance that an earlier failed call left with '+' pending: "+got.String()+" instead of "+f.o.String(), c.in, ex)
+		case !sameOutcome(got, f.o):
+			add("violation", "history:pooled", "sen.Parse/ParseReader through the pool differs from a fresh parser: "+got.String()+" instead of "+f.o.String(), c.in, ex)
+		default:
+			add("disagreement", "model:pooled", "no tracked instance state explains the pooled call (it equals the fresh parser)", c.in, ex)
 		}
 	}
 }
